@@ -245,6 +245,28 @@ func c05oracle(m *ordered.MapSS, ref plist, probe []string, full, withYAML bool)
 	if !reflect.DeepEqual(yp, append(plist{}, ref...)) {
 		return fmt.Sprintf("MarshalYAML=%v want %v", yp, ref)
 	}
+	// ... and the encoding as TEXT: read back, the same string keys and string values in the same order
+	if yb, err := yaml.Marshal(m); err != nil {
+		return "yaml.Marshal error " + err.Error()
+	} else {
+		var back yaml.Node
+		if err := yaml.Unmarshal(yb, &back); err != nil {
+			return fmt.Sprintf("the YAML encoding %q does not parse: %v", yb, err)
+		}
+		tp := plist{}
+		if len(back.Content) == 1 && back.Content[0].Kind == yaml.MappingNode {
+			c := back.Content[0].Content
+			for i := 0; i+1 < len(c); i += 2 {
+				if c[i].ShortTag() != "!!str" || c[i+1].ShortTag() != "!!str" {
+					return fmt.Sprintf("the YAML encoding %q reads back with a key or value that is not a string: %s %q: %s %q", yb, c[i].ShortTag(), c[i].Value, c[i+1].ShortTag(), c[i+1].Value)
+				}
+				tp = append(tp, kv{c[i].Value, c[i+1].Value})
+			}
+		}
+		if !reflect.DeepEqual(tp, append(plist{}, ref...)) {
+			return fmt.Sprintf("the YAML encoding %q reads back as %v want %v", yb, tp, ref)
+		}
+	}
 	return c05twin(m, ref)
 }
 
@@ -308,7 +330,7 @@ func c05run(every int, ops []c05op, start string) (t c05trace) {
 // c05fromItems: the constructor MapFromItems is the same thing as Set of each pair in turn, repeated keys
 // included; a few more operations follow so that every observer sees the constructed storage
 func c05fromItems(rng *sx.Rng, n int) {
-	keys := []string{"a", "b", "c", "d", "e"}
+	keys := []string{"a", "b", "c", "d", "e", "1", "true"}
 	for i := 0; i < n; i++ {
 		var items []ordered.TupleSS
 		ref := plist{}
@@ -467,6 +489,12 @@ func c05random(rng *sx.Rng, n int) {
 		keys := make([]string, nk)
 		for i := range keys {
 			keys[i] = fmt.Sprintf("k%d", i)
+		}
+		// keys are strings whatever they look like
+		for i, k := range []string{"1", "true", "~", "2024-01-01", "1.5", "", "null", "0x10"} {
+			if i < nk && rng.Chance(50) {
+				keys[i] = k
+			}
 		}
 		// bias the mix so the compaction threshold is crossed repeatedly
 		pdel := 20 + rng.Intn(40)
